@@ -629,6 +629,7 @@ impl<'e> Runner<'e> {
                         if env.case.state.reject {
                             rm.invalidated = true;
                             rm.srv = Srv::Deleted;
+                            rm.notes.push("invalidated_by_missing_record".into());
                             self.stats.bump("invalidated_by_missing_record");
                             for side in ['s', 'c'] {
                                 self.events.push(Event {
@@ -1395,7 +1396,49 @@ impl<'e> Runner<'e> {
         if is_removal {
             // Not a cookie carrying a session: the statement asks nothing about its protection.
             self.stats.bump("c12_removal_cookies");
-            // ... but it can only remove the cookie if name/domain/path are the configured ones.
+            // ... but it only removes the stored session cookie if it names the same
+            // (name, Domain, Path): these three must be the configured ones, both on the
+            // ResponseCookie the session built and on the wire. Nothing else is asserted
+            // (Secure/HttpOnly/SameSite/Max-Age of a removal cookie are not promised anywhere).
+            let mut bad: Vec<(&'static str, String)> = vec![];
+            if pc.name() != cc.name {
+                bad.push(("name", format!("name {:?} != {:?}", pc.name(), cc.name)));
+            }
+            let wname = if env.case.percent_encode { wire::pct_decode(&wc.name_wire).unwrap_or_default() } else { wc.name_wire.clone() };
+            if wname != cc.name {
+                bad.push(("name", format!("wire name {:?} != {:?}", wname, cc.name)));
+            }
+            if pc.domain() != cc.domain.as_deref() {
+                bad.push(("domain", format!("domain {:?} != {:?}", pc.domain(), cc.domain)));
+            }
+            if wc.attr_val("domain") != cc.domain {
+                bad.push(("domain", format!("wire Domain {:?} != {:?}", wc.attr_val("domain"), cc.domain)));
+            }
+            if pc.path() != cc.path.as_deref() {
+                bad.push(("path", format!("path {:?} != {:?}", pc.path(), cc.path)));
+            }
+            if wc.attr_val("path") != cc.path {
+                bad.push(("path", format!("wire Path {:?} != {:?}", wc.attr_val("path"), cc.path)));
+            }
+            self.stats.bump("c12_removal_cookies_scope_checked");
+            self.stats.cbump(
+                "c12_removal_cookie_scopes",
+                &format!(
+                    "domain={} path={} ({})",
+                    if cc.domain.is_some() { "some" } else { "none" },
+                    cc.path.as_deref().unwrap_or("none"),
+                    if rm.notes.iter().any(|n| n == "invalidated_by_missing_record") { "implicit: missing record rejected" } else { "explicit invalidate()" }
+                ),
+            );
+            if !bad.is_empty() {
+                return Err(self.violation(
+                    json!({"rule": "removal_cookie_attributes", "attribute": bad[0].0}),
+                    json!({"request": ri + 1, "mismatches": bad.iter().map(|b| b.1.clone()).collect::<Vec<_>>(),
+                           "set_cookie": wc.raw, "built": pc.to_string(),
+                           "configured": {"name": cc.name, "domain": cc.domain, "path": cc.path}}),
+                    h,
+                ));
+            }
             return Ok(());
         }
         self.stats.bump("c12_session_cookies_checked");
